@@ -39,8 +39,9 @@ def run_case(case: dict) -> dict:
     odv.factor = fn if fd == 1 else fn / fd        # an integer factor stays an int, as read from EDS / EPF
     for val, name in case["descs"]:
         odv.add_value_description(val, name)
-    for name, bits in case["bitdefs"]:
-        odv.add_bit_definition(name, list(bits))
+    for k, (name, bits) in enumerate(case["bitdefs"]):
+        # every other named field is defined most significant bit first
+        odv.add_bit_definition(name, list(bits)[::-1] if case.get("desc_defs") and k % 2 else list(bits))
     ev = []
     var.raw = 0
     lb = limb
@@ -112,6 +113,12 @@ def run_case(case: dict) -> dict:
                     key = slice(bits[0], bits[-1] + 1)
                 elif sp == "slice_step":
                     key = slice(bits[0], bits[-1] + 1, 1)
+                elif sp == "list_desc":          # the same bits, most significant first
+                    key = bits[::-1]
+                elif sp == "slice_down":
+                    # (a slice that runs down to bit 0 would need an open end, which the library's
+                    #  range(start, stop, step) does not take: spelled as a list there)
+                    key = slice(bits[-1], bits[0] - 1, -1) if bits[0] > 0 else bits[::-1]
                 else:
                     key = op["name"]
                 if o == "bits_set":
